@@ -112,3 +112,6 @@ BOUNDED = [{"name": "type-conformance-and-acceptance", "script": "bounded/b02_ty
 
 from contracts.adapt_arms import dispatch_unit  # noqa: E402
 UNITS.append(dispatch_unit("C02"))
+
+from contracts.apply_actions import apply_actions_unit  # noqa: E402
+UNITS.append(apply_actions_unit("C02"))
